@@ -181,6 +181,18 @@ def run_case(case, prop) -> Dict[str, Any]:
                 if match_known(p_, v, known) is not None:
                     st["core_known_finding_in_rt_run"] = st.get("core_known_finding_in_rt_run", 0) + 1
                     continue
+                if p_ == "C02" and v["kind"] == "duplicated":
+                    d_ = v["detail"]
+                    t_ = d_["tau"][0]
+                    q_first = next((i for i, h in enumerate(r.hist) if h[0] in ("issue", "begin") and h[1] == "step"
+                                    and h[2] == d_["sid"] and (h[3] or (None,))[0] == t_), None)
+                    n_ev = sum(1 for i, h in enumerate(r.hist) if h[0] == "set_event_processed" and h[1] == d_["sid"]
+                               and h[2] == t_ and q_first is not None and i > q_first)
+                    if n_ev >= 1:
+                        # an external event for a time whose step had already been issued: the event
+                        # gets its own step (C17 d); not a duplicated step in C02's sense
+                        st["repeated_event_same_time"] = st.get("repeated_event_same_time", 0) + 1
+                        continue
                 viols.append({"kind": f"rt_{p_}_{v['kind']}", "features": {}, "detail": v["detail"]})
         st["rt_runs_checked_by_core_oracles"] = 1
     # (e) strict vs. non-strict: identical histories up to the first too-slow report
